@@ -124,6 +124,10 @@ def standard_plans(tier, borrow_limit_orders=True):
                 kinds = ["limit", "market"] if (borrow_limit_orders or not ab or tier == "thorough") else ["market"]
                 ps.append(dict(plan="loans", depth=2, bp=8, qp=2, lend="margin", namounts=1, closes=CLOSES,
                                kinds=kinds, auto_borrow=ab, auto_repay=ar, loan_symbol=lsym))
+    # the second of two loans of an auto-borrow order failing (no lending conditions for the quote symbol): rollback
+    ps.append(dict(plan="loans", depth=2, bp=8, qp=2, lend="margin_base_only", namounts=2, closes=CLOSES,
+                   kinds=["limit", "market"], sides=["sell"], auto_borrow=True, auto_repay=False, loan_symbol="BTC",
+                   min_fee="5"))
     if tier == "thorough":
         ps += [
             dict(plan="single", depth=3, bp=8, qp=2, fee="none"),
